@@ -16,6 +16,8 @@ func init() {
 func c13(r *Report, s *Sem) {
 	p := r.P
 	a := s.anchors()
+	defer r.Import(s, "C19", "R1", "R15", "the observer moves to the terminal state it saw: every exit of the client's receiver either folded the peer's session state, was requested by the stop routine, or closed the transport — and a server-initiated failed is folded like a finished", 1)
+	defer r.Import(s, "C12", "R5", "R16", "the connection stays closable after the end of the stream: EOF is recorded in a flag that Connected() reads — the connection handle itself is kept, so the terminating call's Close still releases the socket", 2, "EOF", "end-of-stream")
 	R14 := r.Rule("R14", "a terminal state set outside the receiver stops the receiver: the lock-only state setter is called with a terminal constant only inside the receiver goroutine's own call tree — terminating calls use the full setter, which cancels the receiver and waits for it (otherwise a receiver parked on a full inbound stream is never released)", 1)
 	checkTerminalThroughFullSetter(r, s, R14)
 	defer r.Import(s, "C08", "R6", "R13", "the initiator's connection is closed by the terminating call whatever terminal answer it gets: the client's read wrapper closes the transport for a failed as for a finished session (Client.Close drops the channel without closing it again)", 1)
